@@ -376,6 +376,39 @@ pub mod derived_dummy {
     }
 }
 
+pub mod owner_setter {
+    //! A contract built with the tree's own derives whose migration installs a new owner taken from
+    //! its migration data — the one kind of migration for which it matters *when* the shared
+    //! `migrate` asks for the owner's authorisation.
+    use axelar_soroban_std::{interfaces, Ownable, Upgradable};
+    use soroban_sdk::{contract, contracterror, contractimpl, Address, Env};
+
+    #[contracterror]
+    #[derive(Copy, Clone, Debug, Eq, PartialEq, PartialOrd, Ord)]
+    #[repr(u32)]
+    pub enum ContractError {
+        MigrationNotAllowed = 1,
+    }
+
+    #[contract]
+    #[derive(Ownable, Upgradable)]
+    #[migratable(with_type = Address)]
+    pub struct OwnerSetter;
+
+    #[contractimpl]
+    impl OwnerSetter {
+        pub fn __constructor(env: Env, owner: Address) {
+            interfaces::set_owner(&env, &owner);
+        }
+    }
+
+    impl OwnerSetter {
+        fn run_migration(env: &Env, new_owner: Address) {
+            interfaces::set_owner(env, &new_owner);
+        }
+    }
+}
+
 pub mod native_dummy {
     //! The pattern of the repository's upgrader test dummy: owner-gated
     //! `upgrade` that swaps the code and nothing else; version 0.1.0.  Its
